@@ -428,24 +428,7 @@ func (g *Gen) specCall(st *State, f *ssa.Function, c *Contract, args []Val, resT
 		return App("vp_spec!"+ShortKey(key)+lf.Path, lf.Sort, flat...)
 	})
 	g.wfVal(st, res)
-	// termination of recursive spec functions / lemmas: the measure decreases
-	if g.Fn == f && c.Decreases != nil && !g.quiet {
-		vars := map[string]Val{}
-		for i, p := range f.Params {
-			if i < len(args) {
-				vars[p.Name()] = args[i]
-			}
-		}
-		scA := g.specCtxVars(st, st, vars)
-		scP := g.specCtx(g.entry, g.entry, nil)
-		ma, e1 := scA.intTerm(c.Decreases.E)
-		mp, e2 := scP.intTerm(c.Decreases.E)
-		if e1 != nil || e2 != nil {
-			g.BindErrs = append(g.BindErrs, fmt.Sprintf("decreases %q: %v %v", c.Decreases.Text, e1, e2))
-		} else {
-			g.oblige(st, "decreases", "", "recursive call decreases "+c.Decreases.Text, pos, And(Le(IntLit(0), ma), Lt(ma, mp)))
-		}
-	}
+	g.checkDecreases(st, f, c, args, pos)
 	fuel := c.Fuel
 	if fuel == 0 {
 		fuel = 1
@@ -563,4 +546,27 @@ func (g *Gen) inlineCounterPtr() *int {
 		g.inlineCounter = new(int)
 	}
 	return g.inlineCounter
+}
+
+// checkDecreases: termination of recursive spec functions / lemmas — at a
+// recursive call the measure is non-negative and strictly smaller.
+func (g *Gen) checkDecreases(st *State, f *ssa.Function, c *Contract, args []Val, pos token.Pos) {
+	if g.Fn != f || c.Decreases == nil || g.quiet {
+		return
+	}
+	vars := map[string]Val{}
+	for i, p := range f.Params {
+		if i < len(args) {
+			vars[p.Name()] = args[i]
+		}
+	}
+	scA := g.specCtxVars(st, st, vars)
+	scP := g.specCtx(g.entry, g.entry, nil)
+	ma, e1 := scA.intTerm(c.Decreases.E)
+	mp, e2 := scP.intTerm(c.Decreases.E)
+	if e1 != nil || e2 != nil {
+		g.BindErrs = append(g.BindErrs, fmt.Sprintf("decreases %q: %v %v", c.Decreases.Text, e1, e2))
+		return
+	}
+	g.oblige(st, "decreases", "", "recursive call decreases "+c.Decreases.Text, pos, And(Le(IntLit(0), ma), Lt(ma, mp)))
 }
